@@ -8,7 +8,7 @@ from ..model import Program, AnalysisError, own_nodes, norm, names_in, FuncInfo
 from ..cfg import cfg_of
 from ..guards import Env, walk, collect_atoms, valuations, describe_env
 from ..report import Report
-from ..util import callee_last, enclosing_stmt, parents, depends_on, helper_scopes, single_assignments
+from ..util import callee_last, enclosing_stmt, parents, depends_on, helper_scopes, single_assignments, inline_temps
 from ..absint.domain import AV, const
 from ..absint.interp import Interp, Unsupported, SelfObj, PTResult, Opaque, as_av
 from ..absint import semiring_laws
@@ -109,7 +109,7 @@ def multiplier_once(rep: Report, prog: Program) -> None:
         if g.is_lambda or g.name == 'sum_product_edges': continue
         for c in [x for x in own_nodes(g.node) if isinstance(x, ast.Call) and callee_last(x) == 'sum_product_edges']:
             n_callers += 1
-            a1 = norm(c.args[1]) if len(c.args) > 1 else ''
+            a1 = norm(inline_temps(g.node, c.args[1])) if len(c.args) > 1 else ''       # `rhs = rule.rhs` may have been named first
             ok = a1.endswith('.rhs.nodes()')
             rep.ob(rule, g.fq(), norm(c)[:80], g.loc(c), ok, f"node-set argument `{a1}`" + ('' if ok else ' is not the complete node set <rule>.rhs.nodes(): an edgeless node outside it is never counted'))
     rep.floor('C01-D1 callers', n_callers, 7)
@@ -384,6 +384,9 @@ def inputs_complete(rep: Report, prog: Program) -> None:
         for a in c.args:
             if isinstance(a, ast.Call) and callee_last(a) == 'keys' and isinstance(a.func.value, ast.Name):
                 tabs.add(a.func.value.id)
+            # or the table itself (iterated for its keys) next to *table.values()
+            if isinstance(a, ast.Starred) and isinstance(a.value, ast.Call) and callee_last(a.value) == 'values' and isinstance(a.value.func.value, ast.Name):
+                tabs.add(a.value.func.value.id)
     n = 0
     for T in sorted(tabs):
         stores = [k for k, nd in cfg.nodes.items() if nd.kind == 'stmt' and isinstance(nd.stmt, ast.Assign) and any(isinstance(t, ast.Subscript) and norm(t.value) == T for t in nd.stmt.targets)]
